@@ -39,7 +39,11 @@ def run(check):
             rt = hir.peel(n["recv"]).get("ty", "")
             if any(rt.endswith(v) or v in rt for v in STMT_VECS):
                 sites.append((f, n))
-    check.floor(R, "statement-list insertions", len(sites), 3)
+    writes, tracked_inserts = _list_writes(check, prog)
+    have = {(f.def_path, n["id"]) for f, n in sites}
+    sites += [(f, n) for f, n in tracked_inserts if (f.def_path, n["id"]) not in have]
+    if not writes:  # vacuity guard; when LIST-WRITES already names the offending writes it adds nothing
+        check.floor(R, "statement-list write sites", len(sites), 3)
     preds_seen = {}
     for f, n in sites:
         recv_place = hir.place(n["recv"]) or "?"
@@ -141,6 +145,103 @@ def run(check):
         "assumptions": ["Stmt::can_precede_directive (swc_ecma_ast) is true exactly for expression statements that are string literals"],
         "not_decided": ["strictness of the running code (a consequence)", "directives written with parentheses are not directives in ECMAScript either"],
     }
+
+
+READS = {"iter", "len", "is_empty", "first", "last", "get", "clone", "as_slice", "contains", "to_vec", "split_first", "split_last"}
+TRAVERSALS = {"visit_mut_with", "visit_mut_children_with", "visit_with", "visit_children_with"}
+
+
+def _is_list_ty(t):
+    t = (t or "").replace("&mut ", "").replace("&", "").strip()
+    return any(t == v or t.endswith(v) for v in STMT_VECS)
+
+
+def _list_writes(check, prog):
+    """LIST-WRITES: the only way crate code changes a statement list of the tree is Vec::insert (whose
+    index VALUESET decides).  Every other mutable use of a Vec<Stmt>/Vec<ModuleItem> - through a
+    crate helper too, generic or not - is reported: a list that is rebuilt, sorted, partitioned,
+    drained or assigned can move statements across the end of the directive prologue."""
+    R = "LIST-WRITES"
+    check.rule(R, "statement lists of the tree are changed only by Vec::insert; they are never assigned, taken, rebuilt, extended, sorted, retained or handed mutably to code outside the crate (visitor traversal excepted)")
+    bad = []
+    inserts = []
+    seen = set()
+    work = []  # (fn, None = by type | local id of a parameter bound to a statement list)
+    for f in prog.user_fns:
+        if f.rec.get("in_test"):
+            continue
+        work.append((f, None))
+    n_uses = 0
+    while work:
+        f, lid = work.pop()
+        if (f.def_path, lid) in seen:
+            continue
+        seen.add((f.def_path, lid))
+        for n in f.nodes():
+            if not hir.is_expr(n):
+                continue
+            if lid is None:
+                if not (n.get("k") in ("Field", "Path", "Index") and _is_list_ty(n.get("ty"))):
+                    continue
+            else:
+                lo = hir.local_of(n) if n.get("k") == "Path" else None
+                if not (lo and lo[0] == lid):
+                    continue
+            # climb through borrows / derefs
+            cur = n
+            mut_borrow = False
+            par = f.parent(cur)
+            while par is not None and (par.get("k") in ("AddrOf", "DropTemps", "Use") or (par.get("k") == "Unary" and par.get("op") == "Deref")):
+                if par.get("k") == "AddrOf" and par.get("mut"):
+                    mut_borrow = True
+                cur = par
+                par = f.parent(cur)
+            if par is None:
+                continue
+            k = par.get("k")
+            where = hir.loc(par)
+            what = hir.place(n) or hir.describe(n)
+            if k == "MethodCall" and par["recv"] is cur:
+                m = par["method"]
+                n_uses += 1
+                if m == "insert":
+                    inserts.append((f, par))
+                if m in READS or m in TRAVERSALS or m == "insert":
+                    continue
+                bad.append((f, par, "%s/%s" % (f.name, m), "statement list %s is changed by .%s(..), not by an insertion at the prologue index" % (_strip(what), m)))
+            elif k in ("Call", "MethodCall") and any(a is cur for a in par["args"]):
+                by_mut = mut_borrow or (lid is not None and cur is n)
+                if not by_mut:
+                    continue
+                n_uses += 1
+                g = prog.resolve_local(par)
+                cname = hir.callee_name(par) or par.get("method") or "?"
+                if g is not None and g.body is not None:
+                    idx = [i for i, a in enumerate(hir.call_args(par)) if a is cur]
+                    if idx and idx[0] < len(g.rec["params"]):
+                        bs = hir.pat_bindings(g.rec["params"][idx[0]]["pat"])
+                        if bs:
+                            work.append((g, bs[0]["local"]))
+                            continue
+                    bad.append((f, par, "%s/%s" % (f.name, cname), "statement list %s is handed mutably to %s in a way the rule cannot follow" % (_strip(what), cname)))
+                elif cname in TRAVERSALS or (par.get("callee", {}).get("trait") or "").startswith("swc_ecma_visit::"):
+                    continue
+                else:
+                    bad.append((f, par, "%s/%s" % (f.name, cname), "statement list %s is handed mutably to %s: the list is rebuilt or replaced, not inserted into" % (_strip(what), cname)))
+            elif k in ("Assign", "AssignOp") and par["l"] is cur:
+                n_uses += 1
+                bad.append((f, par, "%s/assign" % f.name, "statement list %s is replaced by assignment" % _strip(what)))
+    for f, node, key, msg in bad:
+        check.bad(R, "%s/%s" % (R, key), hir.loc(node), msg + ": statements can move across the end of the directive prologue")
+    if not bad:
+        check.ok(R, R + "/inventory", "-", "%d uses of statement lists: reads, visitor traversals and Vec::insert only" % n_uses)
+    return bad, inserts
+
+
+def _strip(s):
+    import re
+
+    return re.sub(r"#\d+", "", s)
 
 
 def _variant(f, n):
